@@ -48,6 +48,33 @@ Theorem C13_closed_entered_only_when_empty : forall s0 h e q a, let s := run s0 
 Proof. exact closed_only_when_empty_hist. Qed.
 Print Assumptions C13_closed_entered_only_when_empty.
 
+(* ... and against the PodGroups that REALLY exist (the PodGroup objects, not the
+   controller's index): the index stays complete along every history without a delivered
+   queue deletion and without a PodGroup changing its queue — in particular when PodGroup
+   events are handled before their queue is in the lister — and then Closed is entered
+   only when no PodGroup of the queue exists, and a close with an existing PodGroup
+   yields Closing *)
+Theorem C13_index_stays_complete : forall h s,
+  idx_complete s -> benign_hist s h -> idx_complete (run s h).
+Proof. exact idx_complete_run. Qed.
+Print Assumptions C13_index_stays_complete.
+
+Theorem C13_closed_only_when_no_podgroup_exists : forall s0 h e q a, let s := run s0 h in
+  idx_complete s0 -> benign_hist s0 h ->
+  sst (srv s) q = Some a -> a <> SClosed -> sst (srv (step s e).1) q = Some SClosed ->
+  forall pg ph, pgl s !! pg <> Some (q, ph).
+Proof. exact closed_only_when_really_empty_hist. Qed.
+Print Assumptions C13_closed_only_when_no_podgroup_exists.
+
+Theorem C13_close_with_existing_podgroups_yields_closing : forall s i r v pg ph,
+  idx_complete s -> pgl s !! pg = Some (r_q r, ph) ->
+  nth_error (wq s) i = Some r -> lst s !! r_q r = Some v -> r_act r = AClose ->
+  (proc s i).2 = OOk -> r_q r <> root -> q_state v <> SClosed -> q_state v <> SInvalid ->
+  sst (srv s) (r_q r) = Some (q_state v) ->
+  sst (srv (proc s i).1) (r_q r) = Some SClosing.
+Proof. exact close_with_real_pgs. Qed.
+Print Assumptions C13_close_with_existing_podgroups_yields_closing.
+
 (* closing a parent marks every child the lister shows as not closed with
    closed-by-parent=true and enqueues a Close request for it *)
 Theorem C13_parent_close_propagates : forall s0 h i r v, let s := run s0 h in
